@@ -141,12 +141,12 @@ class World:
     def objref(self, i, tok=None, live=False):
         """-> (handle, oid or None).  Resolved over everything ever issued (stale handles included)."""
         pool = self.issued
+        if tok is not None:
+            # handles are only ever used through sessions of their own token (cross-token use of a handle is outside
+            # the stated properties: the library performs no slot check there, see DESIGN.md section 7)
+            pool = [(h, o) for h, o in pool if self.objs[o].tok == tok]
         if live:
-            p2 = [(h, o) for h, o in pool if self.hmap.get(h) == o and (tok is None or self.objs[o].tok == tok)]
-            if p2:
-                pool = p2
-        elif tok is not None:
-            p2 = [(h, o) for h, o in pool if self.objs[o].tok == tok]
+            p2 = [(h, o) for h, o in pool if self.hmap.get(h) == o]
             if p2:
                 pool = p2
         if not pool:
@@ -266,7 +266,7 @@ class World:
             if oid is None:
                 lab = attrs.get(K.CKA_LABEL)
                 o = None
-                if isinstance(lab, str):
+                if isinstance(lab, str) and not lab.startswith(("ERR:", "raw:")):
                     for cand in self.objs.values():
                         if cand.label == bytes.fromhex(lab):
                             o = cand
@@ -290,9 +290,16 @@ class World:
         if missing:
             raise self.V("%s: session %d does not find object(s) %s (%s)" % (why, sh, sorted(missing), [self.objs[m].cls for m in missing]))
 
-    def check_all_views(self, why):
-        for sh in list(self.sessions):
-            self.check_view(sh, why)
+    def check_all_views(self, why, every=False):
+        """all sessions of one token share the login state, hence the view: two sessions per token suffice
+        (the first and the last opened), unless every=True"""
+        per_tok = {}
+        for sh in self.ever_sessions:
+            if sh in self.sessions:
+                per_tok.setdefault(self.sessions[sh][0], []).append(sh)
+        for tok, lst in sorted(per_tok.items()):
+            for sh in (lst if every else sorted(set([lst[0], lst[-1]]))):
+                self.check_view(sh, why)
 
     def probe_sweep(self, why):
         """C11: every handle ever issued is alive exactly when the model says so."""
@@ -348,11 +355,16 @@ class World:
             self.ctx.steps += 1
             rv = getattr(self, "op_" + op[0])(*op[1:])
             failed = rv is not None and rv != K.CKR_OK
+            self.count("op_" + op[0])
             if failed:
                 self.count("failed_calls")
+                self.count("failed_" + op[0])
             if self.check_views == "always" or (self.check_views == "fail" and failed and op[0] in (
                     "create", "copy", "set", "destroy", "gen", "genpair", "unwrap", "derive")):
                 self.check_all_views("after %s -> %s" % (op[0], K.rvname(rv) if rv is not None else "-"))
+                self.count("views_checked")
+            elif self.check_views == "access" and op[0] in ("open", "close", "closeall", "login", "logout") and rv == K.CKR_OK:
+                self.check_all_views("after %s" % op[0])
                 self.count("views_checked")
             elif self.check_views == "lifecycle" and op[0] in ("close", "closeall", "logout", "destroy") and rv == K.CKR_OK:
                 self.check_all_views("after %s" % op[0])
@@ -611,7 +623,8 @@ class World:
 
     def op_size(self, si, oi):
         sh = self.live_sess(si)
-        h, oid = self.objref(oi)
+        st_ = self.state(sh)
+        h, oid = self.objref(oi, tok=st_[0] if st_ else None)
         r = self.w.C_GetObjectSize(s=sh, o=h)
         if r["rv"] == K.CKR_OK and r["size"] != K.UNAVAILABLE and oid is not None and self.objs[oid].private and not self.can_read(sh, self.objs[oid]):
             raise self.V("C_GetObjectSize revealed the size of a private object without user login")
@@ -782,6 +795,202 @@ class World:
         return rv
 
 
+    # -- C01: use of an object handle through every entry point that accepts one --------------------------------
+    USE_FNS = ["C_GetAttributeValue", "C_SetAttributeValue", "C_SetAttributeValue:flag", "C_CopyObject", "C_DestroyObject", "C_GetObjectSize",
+               "C_EncryptInit", "C_DecryptInit", "C_SignInit", "C_VerifyInit", "C_SignRecoverInit", "C_VerifyRecoverInit",
+               "C_DigestKey", "C_WrapKey:wrapping", "C_WrapKey:target", "C_UnwrapKey", "C_DeriveKey", "C_FindObjects"]
+
+    def mech_for(self, cls, fn):
+        """a mechanism + parameters that fits class `cls` for entry point `fn` (so that only the access rule can refuse)"""
+        iv16 = "00" * 16
+        if cls == "aes":
+            return {"C_EncryptInit": {"m": K.CKM_AES_CBC_PAD, "p": {"raw": iv16}}, "C_DecryptInit": {"m": K.CKM_AES_CBC_PAD, "p": {"raw": iv16}},
+                    "C_SignInit": {"m": K.CKM_AES_CMAC}, "C_VerifyInit": {"m": K.CKM_AES_CMAC},
+                    "C_WrapKey:wrapping": {"m": K.CKM_AES_KEY_WRAP_PAD}, "C_UnwrapKey": {"m": K.CKM_AES_KEY_WRAP_PAD},
+                    "C_DeriveKey": {"m": K.CKM_AES_ECB_ENCRYPT_DATA, "p": {"strdata": "11" * 16}}}.get(fn)
+        if cls in ("des3", "des2", "des"):
+            return {"C_EncryptInit": {"m": K.CKM_DES3_CBC_PAD, "p": {"raw": "00" * 8}}, "C_DecryptInit": {"m": K.CKM_DES3_CBC_PAD, "p": {"raw": "00" * 8}},
+                    "C_SignInit": {"m": K.CKM_DES3_CMAC}, "C_VerifyInit": {"m": K.CKM_DES3_CMAC},
+                    "C_DeriveKey": {"m": K.CKM_DES3_ECB_ENCRYPT_DATA, "p": {"strdata": "11" * 16}}}.get(fn)
+        if cls == "generic":
+            return {"C_SignInit": {"m": K.CKM_SHA256_HMAC}, "C_VerifyInit": {"m": K.CKM_SHA256_HMAC}}.get(fn)
+        if cls == "rsa_priv":
+            return {"C_DecryptInit": {"m": K.CKM_RSA_PKCS}, "C_SignInit": {"m": K.CKM_SHA256_RSA_PKCS}, "C_UnwrapKey": {"m": K.CKM_RSA_PKCS}}.get(fn)
+        if cls == "rsa_pub":
+            return {"C_EncryptInit": {"m": K.CKM_RSA_PKCS}, "C_VerifyInit": {"m": K.CKM_SHA256_RSA_PKCS}, "C_WrapKey:wrapping": {"m": K.CKM_RSA_PKCS}}.get(fn)
+        if cls == "ec_priv":
+            return {"C_SignInit": {"m": K.CKM_ECDSA}, "C_DeriveKey": {"m": K.CKM_ECDH1_DERIVE, "p": {"ecdh": {"kdf": K.CKD_NULL, "pub": "04" + "11" * 64}}}}.get(fn)
+        if cls == "ec_pub":
+            return {"C_VerifyInit": {"m": K.CKM_ECDSA}}.get(fn)
+        if cls == "ed_priv":
+            return {"C_SignInit": {"m": K.CKM_EDDSA}}.get(fn)
+        if cls == "ed_pub":
+            return {"C_VerifyInit": {"m": K.CKM_EDDSA}}.get(fn)
+        if cls == "dsa_priv":
+            return {"C_SignInit": {"m": K.CKM_DSA_SHA1}}.get(fn)
+        if cls == "dsa_pub":
+            return {"C_VerifyInit": {"m": K.CKM_DSA_SHA1}}.get(fn)
+        if cls == "dh_priv":
+            return {"C_DeriveKey": {"m": K.CKM_DH_PKCS_DERIVE, "p": {"raw": "02" * 128}}}.get(fn)
+        return None
+
+    def helper_key(self, sh, token):
+        """a PUBLIC session AES key usable as the innocent second key of wrap calls, created through `sh`"""
+        r = self.w.C_CreateObject(s=sh, tpl=T(("CKA_CLASS", "CKO_SECRET_KEY"), ("CKA_KEY_TYPE", "CKK_AES"), ("CKA_VALUE", b"K" * 16),
+                                               ("CKA_PRIVATE", False), ("CKA_TOKEN", False), ("CKA_EXTRACTABLE", True), ("CKA_WRAP", True),
+                                               ("CKA_UNWRAP", True), ("CKA_LABEL", b"helper")))
+        return r["h"] if r["rv"] == K.CKR_OK else None
+
+    def use(self, sh, h, cls, fn, label=b"probe"):
+        """call entry point `fn` with object handle `h` through session `sh`.
+        -> (rv, evidence of output: None or a description); objects created by a successful call are recorded in
+        self.created = (handle, class) for the caller to register"""
+        w = self.w
+        leak = None
+        self.created = None
+        if fn == "C_GetAttributeValue":
+            r = w.C_GetAttributeValue(s=sh, o=h, attrs=[[K.CKA_CLASS, 8], [K.CKA_TOKEN, 1], [K.CKA_LABEL, 64], [K.CKA_VALUE, 512], [K.CKA_ID, 64]])
+            for e in r["attrs"]:
+                if "data" in e or e.get("tail") is False:
+                    leak = "attribute %s returned (%s)" % (K.name("CKA", e["type"]), e.get("data", e.get("dirty")))
+                elif e["len"] not in (K.UNAVAILABLE, 64, 8, 512, 1):
+                    leak = "length %d of attribute %s revealed" % (e["len"], K.name("CKA", e["type"]))
+            return r["rv"], leak
+        if fn == "C_SetAttributeValue":
+            return w.C_SetAttributeValue(s=sh, o=h, tpl=T(("CKA_ID", b"changed")))["rv"], None
+        if fn == "C_SetAttributeValue:flag":
+            if class_kind(cls) not in ("secret", "public", "private"):
+                return None, None
+            cur = None
+            return w.C_SetAttributeValue(s=sh, o=h, tpl=T(("CKA_DERIVE", False)))["rv"], None
+        if fn == "C_CopyObject":
+            r = w.C_CopyObject(s=sh, o=h, tpl=T(("CKA_TOKEN", False), ("CKA_LABEL", label)))
+            if r["rv"] == K.CKR_OK:
+                self.created = (r["h"], cls)
+            return r["rv"], ("handle %d returned" % r["h"]) if r["h"] else None
+        if fn == "C_DestroyObject":
+            return w.C_DestroyObject(s=sh, o=h)["rv"], None
+        if fn == "C_GetObjectSize":
+            r = w.C_GetObjectSize(s=sh, o=h)
+            return (K.CKR_OK if (r["rv"] == K.CKR_OK and r["size"] != K.UNAVAILABLE) else K.CKR_GENERAL_ERROR), \
+                ("size %d" % r["size"]) if (r["rv"] == K.CKR_OK and r["size"] != K.UNAVAILABLE) else None
+        if fn in ("C_EncryptInit", "C_DecryptInit", "C_SignInit", "C_VerifyInit", "C_SignRecoverInit", "C_VerifyRecoverInit"):
+            base = fn.replace("Recover", "")
+            m = self.mech_for(cls, base)
+            if m is None:
+                return None, None
+            rv = w.call(fn, s=sh, mech=m, key=h)["rv"]
+            if rv == K.CKR_OK:
+                # terminate the operation with the single-part call (works for every mechanism) so the session stays usable
+                one = {"C_EncryptInit": "C_Encrypt", "C_DecryptInit": "C_Decrypt", "C_SignInit": "C_Sign"}.get(fn)
+                if one:
+                    r2 = w.call(one, s=sh, data="31" * 32, out=4096)
+                    if r2["rv"] == K.CKR_OK and r2["out"].get("data") is not None and fn in ("C_SignInit", "C_DecryptInit"):
+                        leak = "output produced by %s" % one
+                    if r2["rv"] == K.CKR_BUFFER_TOO_SMALL:
+                        w.call(one, s=sh, data="31" * 32, out=70000)
+                else:
+                    w.C_Verify(s=sh, data="31" * 32, sig="32" * 64)
+            return rv, leak
+        if fn == "C_DigestKey":
+            if class_kind(cls) != "secret":
+                return None, None
+            rv0 = w.C_DigestInit(s=sh, mech={"m": K.CKM_SHA256})["rv"]
+            if rv0 != K.CKR_OK:
+                return None, None
+            rv = w.C_DigestKey(s=sh, key=h)["rv"]
+            r2 = w.C_DigestFinal(s=sh, out=64)
+            if rv == K.CKR_OK and r2["rv"] == K.CKR_OK:
+                leak = "digest of the key value returned"
+            return rv, leak
+        if fn in ("C_WrapKey:wrapping", "C_WrapKey:target", "C_UnwrapKey"):
+            hk = self.helper_key(sh, False)
+            if hk is None:
+                return None, None
+            try:
+                if fn == "C_WrapKey:wrapping":
+                    m = self.mech_for(cls, fn)
+                    if m is None:
+                        return None, None
+                    r = w.C_WrapKey(s=sh, mech=m, wkey=h, key=hk, out=1024)
+                    return r["rv"], "wrapped blob returned" if r["out"].get("data") else None
+                if fn == "C_WrapKey:target":
+                    if class_kind(cls) not in ("secret", "private"):
+                        return None, None
+                    r = w.C_WrapKey(s=sh, mech={"m": K.CKM_AES_KEY_WRAP_PAD}, wkey=hk, key=h, out=4096)
+                    return r["rv"], "wrapped key material returned" if r["out"].get("data") else None
+                m = self.mech_for(cls, "C_UnwrapKey")
+                if m is None:
+                    return None, None
+                blob = "aa" * (128 if cls == "rsa_priv" else 24)
+                r = w.C_UnwrapKey(s=sh, mech=m, key=h, data=blob, tpl=T(("CKA_CLASS", "CKO_SECRET_KEY"), ("CKA_KEY_TYPE", "CKK_AES"),
+                                                                       ("CKA_TOKEN", False), ("CKA_PRIVATE", False), ("CKA_LABEL", label)))
+                if r["rv"] == K.CKR_OK:
+                    self.created = (r["h"], "aes")
+                return r["rv"], ("handle %d returned" % r["h"]) if r["h"] else None
+            finally:
+                w.C_DestroyObject(s=sh, o=hk)
+        if fn == "C_DeriveKey":
+            m = self.mech_for(cls, fn)
+            if m is None:
+                return None, None
+            r = w.C_DeriveKey(s=sh, mech=m, key=h, tpl=T(("CKA_CLASS", "CKO_SECRET_KEY"), ("CKA_KEY_TYPE", "CKK_GENERIC_SECRET"), ("CKA_VALUE_LEN", 16),
+                                                           ("CKA_TOKEN", False), ("CKA_PRIVATE", False), ("CKA_LABEL", label)))
+            if r["rv"] == K.CKR_OK:
+                self.created = (r["h"], "generic")
+            return r["rv"], ("handle %d returned" % r["h"]) if r["h"] else None
+        return None, None
+
+    def op_use(self, si, oi, fi, xtok):
+        """use an object (live or stale handle) through entry point USE_FNS[fi]; with xtok the session is one of the
+        OTHER token (the access decision must then follow that session's login state)."""
+        fn = self.USE_FNS[fi % len(self.USE_FNS)]
+        if fn == "C_FindObjects":
+            return None
+        live = [h for h in self.ever_sessions if h in self.sessions]
+        if not live:
+            return None
+        sh = live[si % len(live)]
+        tok = self.sessions[sh][0]
+        otok = (tok + 1) % len(self.tokens) if xtok else tok
+        h, oid = self.objref(oi, tok=otok)
+        if oid is None:
+            return None
+        o = self.objs[oid]
+        alive = self.hmap.get(h) == oid
+        login = self.login[tok]
+        must_fail = (o.private and login != "user") or not alive or not o.alive
+        if xtok and not must_fail and fn in ("C_SetAttributeValue", "C_SetAttributeValue:flag", "C_DestroyObject", "C_CopyObject"):
+            # a permitted cross-token modification is outside the stated properties (no slot check in the library)
+            return None
+        noid, label = self._marker()
+        rv, leak = self.use(sh, h, o.cls, fn, label)
+        if rv is None:
+            return None
+        self.count("use_calls")
+        if self.created is not None and not (must_fail and rv == K.CKR_OK):
+            nh, ncls = self.created
+            no = self._register(sh, nh, noid, tok, False, False, ncls, label, fn)
+            self._judge_creation(sh, no, fn)
+        if xtok and alive and o.private and login != "user":
+            self.count("xtok_private_probe")
+            self.nontrivial = True
+        if not alive and o.private:
+            self.count("stale_private_handle_probe")
+            self.nontrivial = True
+        if must_fail and (rv == K.CKR_OK or leak):
+            raise self.V("%s through session %d (token %d, login=%s) on %s handle %d of %s object %d (%s, token %d) -> %s%s" % (
+                fn, sh, tok, login, "live" if alive else "dead", h, "private" if o.private else "public", oid, o.cls, o.tok,
+                K.rvname(rv), "; " + leak if leak else ""))
+        # model update for calls that legitimately changed something
+        if rv == K.CKR_OK and alive:
+            if fn == "C_DestroyObject":
+                self.kill_obj(o)
+            elif fn.startswith("C_SetAttributeValue"):
+                o.attrs = self.readback(sh, h)
+        return rv
+
+
 # ---------------------------------------------------------------------------------------------------
 # generators
 def extras_st(max_size=3):
@@ -793,11 +1002,12 @@ def extras_st(max_size=3):
 
 
 def bad_st(p_bad):
-    """None most of the time, else [position, kind]"""
+    """None with probability 1-p_bad, else [position, kind]"""
     if p_bad <= 0:
         return st.none()
-    return st.one_of(*([st.none()] * max(1, int(round((1 - p_bad) * 4))) +
-                       [st.tuples(st.integers(0, 8), st.sampled_from(BAD_KINDS)).map(list)] * max(1, int(round(p_bad * 4)))))
+    n = max(1, int(round(p_bad * 8)))
+    bad = st.tuples(st.integers(0, 8), st.sampled_from(BAD_KINDS)).map(list)
+    return st.integers(0, 7).flatmap(lambda i: bad if i < n else st.none())
 
 
 def op_strategies(classes=LIGHT_CLASSES, p_bad=0.0, with_gen=True, ntok=2):
@@ -823,6 +1033,7 @@ def op_strategies(classes=LIGHT_CLASSES, p_bad=0.0, with_gen=True, ntok=2):
         st.tuples(st.just("lit"), st.sampled_from(["CKA_ID", "CKA_APPLICATION", "CKA_TOKEN", "CKA_PRIVATE", "CKA_SUBJECT", "CKA_DERIVE"]), st.integers(0, 3)).map(list)),
         max_size=4)
     s["find"] = st.tuples(st.just("find"), idx, findspec, st.lists(st.sampled_from([1, 1, 2, 3, 5, 64]), min_size=1, max_size=4))
+    s["use"] = st.tuples(st.just("use"), idx, idx, st.integers(0, 17), st.sampled_from([False, False, True]))
     if with_gen:
         s["gen"] = st.tuples(st.just("gen"), idx, st.sampled_from(["aes", "aes32", "des3", "generic"]), tri, tri, extras_st(2), bad_st(p_bad))
         s["genpair"] = st.tuples(st.just("genpair"), idx, st.sampled_from(["ec", "ed"]), tri, tri, st.integers(0, 1), bad_st(p_bad))
@@ -831,11 +1042,17 @@ def op_strategies(classes=LIGHT_CLASSES, p_bad=0.0, with_gen=True, ntok=2):
 
 def program_st(weights, maxlen, prefix=(), minlen=None, **kw):
     ops = op_strategies(**kw)
-    pool = []
+    names = []
     for name, wgt in weights.items():
         if name in ops:
-            pool += [ops[name]] * wgt
-    body = st.lists(st.one_of(*pool), min_size=minlen if minlen is not None else max(3, maxlen // 3), max_size=maxlen)
+            names += [name] * wgt
+    # (st.one_of de-duplicates identical alternatives, so weights go through sampled_from + flatmap)
+    one = st.sampled_from(names).flatmap(lambda n: ops[n])
+    # several short lists concatenated: the average length grows (hypothesis lists average ~5 elements when
+    # min_size=0) while every part still shrinks to empty, so failing programs shrink to minimal ones
+    k = max(1, maxlen // 8)
+    part = st.lists(one, min_size=0, max_size=max(1, maxlen // k))
+    body = st.tuples(*([part] * k)).map(lambda parts: [op for p in parts for op in p])
     if prefix:
         return body.map(lambda b: [list(p) for p in prefix] + b)
     return body
